@@ -106,6 +106,10 @@ def shapes_for(v, tier):
             for f in (False, True):
                 for n in (0, 1, 2):
                     out.append(("%s%d%s" % (t, n, ".R" if f else ""), (t, f, n)))
+        # interned text with non-ASCII content is written as 't' (UTF-8), alone and referenced again
+        for nm, payload in (("eacute", [0xC3, 0xA9]), ("euro", [0xE2, 0x82, 0xAC]), ("astral", [0xF0, 0x9F, 0x98, 0x80])):
+            out.append(("t-%s" % nm, ("str", "t", False, payload)))
+        out.append(("t-eacute-shared", ("(", False, [("str", "t", True, [0x63, 0xC3, 0xA9]), ("r", 0), ("str", "u", False, [0xC3, 0xA9])])))
         # sharing patterns: k-fold, nested, references to completed flagged containers
         out.append(("share-int3", ("(", False, [("i", True), ("r", 0), ("r", 0)])))
         out.append(("share-str-in-list", ("[", False, [("z", True, 1), ("(", False, [("r", 0), ("r", 0)])])))
